@@ -84,10 +84,12 @@ fn verif_native_c09_definitions() {
 }
 
 
-//@n {"id":"C09.N.definitions.hang","props":["C09"],"tier":"quick","bound":"12 degenerate definitions consisting only of modifiers, separators or sigils; each instantiated in its own thread with a 20 s limit","text":"instantiating an operator from any text returns (a handle or an error) in bounded time; it never loops without bound"}
+//@n {"id":"C09.N.definitions.hang","props":["C09"],"tier":"quick","bound":"12 degenerate definitions consisting only of modifiers, separators or sigils and 9 definitions whose $-look-ups refer to their own key, to each other or to a macro argument of the same name; each instantiated in its own thread with a 20 s limit","text":"instantiating an operator from any text returns (a handle or an error) in bounded time; it never loops without bound"}
 #[test]
 fn verif_native_c09_definitions_hang() {
-    let defs = ["omit_fwd", "inv", "inv inv", "omit_inv omit_fwd", "inv omit_fwd inv", "<", ">", "< >", "|", "| |", "$", "="];
+    let defs = ["omit_fwd", "inv", "inv inv", "omit_inv omit_fwd", "inv omit_fwd inv", "<", ">", "< >", "|", "| |", "$", "=",
+        // look-ups that refer to their own key, to each other, or to nothing
+        "helmert x=$x", "helmert x=$y y=$x", "helmert x=$y y=$z z=$x", "helmert x=$x(1)", "hang:shift x=3", "hang:shift", "hang:shift x=$x", "hang:two x=$y y=$x", "addone | hang:shift x=$y y=5"];
     let mut hung = Vec::new();
     for def in defs {
         let (tx, rx) = std::sync::mpsc::channel();
@@ -95,6 +97,8 @@ fn verif_native_c09_definitions_hang() {
         std::thread::spawn(move || {
             let r = std::panic::catch_unwind(|| {
                 let mut ctx = Minimal::default();
+                ctx.register_resource("hang:shift", "helmert x=$x");
+                ctx.register_resource("hang:two", "helmert x=$x y=$y");
                 let _ = ctx.op(&d);
             });
             let _ = tx.send(r.is_ok());
